@@ -1515,7 +1515,7 @@ pub fn cmd(m: &HashMap<String, String>) -> i32 {
                 "trace": out.join(format!("trace_{:04}.ndjson", chunk)).to_string_lossy(),
                 "panics": Vec::<String>::new()}));
             lines.extend(o.lines);
-            if o.status == "hang" {
+            if o.status == "hang" || o.status == "panic" {
                 // leaked threads may still hold the mutex: stop this process after dumping
                 lines.push(json!({"e": "End", "i": 0, "t": "main"}));
                 crate::trace::write_ndjson(&out.join(format!("trace_{:04}.ndjson", chunk)), &lines)
@@ -1754,7 +1754,7 @@ pub fn cmd_live(m: &HashMap<String, String>) -> i32 {
         results.push(json!({"seed": seed, "status": o.status, "events": lines.len(),
             "trace": path.to_string_lossy(), "replay": rpath.to_string_lossy(),
             "waits": waits, "panics": Vec::<String>::new()}));
-        if o.status == "hang" {
+        if o.status == "hang" || o.status == "panic" {
             std::fs::write(
                 out.join("results.json"),
                 serde_json::to_string_pretty(&json!({"runs": results, "aborted": true})).unwrap(),
